@@ -2,9 +2,10 @@
 
     Fields are byte strings ([list Z], every element in [0,256)).  The model mirrors what
     the code DOES: same order of checks, same state variables ([readFirstRegularHeader],
-    [readContentLength], [contentLengthStr], the shrinking [sizeLimit]), the same
-    emptiness-based duplicate test for pseudo-header fields, the same [http.Header]
-    canonicalisation.  The byte tables (valid token byte, valid field-value byte, lower-case
+    [readContentLength], [contentLengthStr], the shrinking [sizeLimit], the [seenPath] ...
+    [seenStatus] flags of the duplicate test for pseudo-header fields — the code as repaired by
+    fixes/C19-dup-pseudo-empty-first.patch and fixes/C19-content-length-empty-accepted.patch),
+    the same [http.Header] canonicalisation.  The byte tables (valid token byte, valid field-value byte, lower-case
     test), the list of connection-specific names, [http.MethodConnect] and the per-field
     overhead come from [Gen.Params], i.e. from the packages as compiled from /repo.
 
@@ -148,16 +149,35 @@ Definition set_slot (s : slot) (v : bytes) (p : pseudos) : pseudos :=
   | SStatus => PSD (sPath p) (sMethod p) (sAuthority p) (sProtocol p) (sScheme p) v
   end.
 
+(** seenPath ... seenStatus *)
+Record flags := FL { gPath : bool; gMethod : bool; gAuthority : bool; gProtocol : bool; gScheme : bool; gStatus : bool }.
+Definition no_flags := FL false false false false false false.
+Definition get_flag (s : slot) (g : flags) : bool :=
+  match s with
+  | SPath => gPath g | SMethod => gMethod g | SAuthority => gAuthority g
+  | SProtocol => gProtocol g | SScheme => gScheme g | SStatus => gStatus g
+  end.
+Definition set_flag (s : slot) (g : flags) : flags :=
+  match s with
+  | SPath => FL true (gMethod g) (gAuthority g) (gProtocol g) (gScheme g) (gStatus g)
+  | SMethod => FL (gPath g) true (gAuthority g) (gProtocol g) (gScheme g) (gStatus g)
+  | SAuthority => FL (gPath g) (gMethod g) true (gProtocol g) (gScheme g) (gStatus g)
+  | SProtocol => FL (gPath g) (gMethod g) (gAuthority g) true (gScheme g) (gStatus g)
+  | SScheme => FL (gPath g) (gMethod g) (gAuthority g) (gProtocol g) true (gStatus g)
+  | SStatus => FL (gPath g) (gMethod g) (gAuthority g) (gProtocol g) (gScheme g) true
+  end.
+
 (** Loop state of parseHeaders. *)
 Record pst := PS {
-  pPs : pseudos;          (* hdr.Path ... hdr.Status: "" means "not seen" to the code *)
+  pPs : pseudos;          (* hdr.Path ... hdr.Status *)
+  pSeen : flags;          (* seenPath ... seenStatus *)
   pHeaders : hmap;        (* hdr.Headers *)
   pRegular : bool;        (* readFirstRegularHeader *)
   pReadCL : bool;         (* readContentLength *)
   pCL : bytes;            (* contentLengthStr *)
   pLimit : Z              (* sizeLimit, decremented *)
 }.
-Definition pinit (lim : Z) : pst := PS no_pseudos [] false false [] lim.
+Definition pinit (lim : Z) : pst := PS no_pseudos no_flags [] false false [] lim.
 
 Definition fsize (f : field) : Z := zlen (fname f) + zlen (fvalue f) + h3FieldOverhead.
 
@@ -179,20 +199,20 @@ Definition pstep (isReq : bool) (st : pst) (f : field) : err + pst :=
     else match pseudo_slot (fname f) with
          | None => inl (EMalformed UnknownPseudo)
          | Some sl =>
-           (* isDuplicatePseudoHeader = hdr.X != "" *)
-           if negb (is_empty (get_slot sl (pPs st))) then inl (EMalformed DupPseudo)
+           (* isDuplicatePseudoHeader = seenX; seenX = true *)
+           if get_flag sl (pSeen st) then inl (EMalformed DupPseudo)
            else if isReq && slot_is_response sl then inl (EMalformed RspPseudoInRequest)
            else if negb isReq && negb (slot_is_response sl) then inl (EMalformed ReqPseudoInResponse)
-           else inr (PS (set_slot sl (fvalue f) (pPs st)) (pHeaders st) (pRegular st) (pReadCL st) (pCL st) lim)
+           else inr (PS (set_slot sl (fvalue f) (pPs st)) (set_flag sl (pSeen st)) (pHeaders st) (pRegular st) (pReadCL st) (pCL st) lim)
          end
   else match validate_regular f with
        | Some r => inl (EMalformed r)
        | None =>
          if beq (fname f) n_content_length then
-           if negb (pReadCL st) then inr (PS (pPs st) (pHeaders st) true true (fvalue f) lim)
+           if negb (pReadCL st) then inr (PS (pPs st) (pSeen st) (pHeaders st) true true (fvalue f) lim)
            else if negb (beq (pCL st) (fvalue f)) then inl (EMalformed CLContradict)
-           else inr (PS (pPs st) (pHeaders st) true (pReadCL st) (pCL st) lim)
-         else inr (PS (pPs st) (hadd (canon (fname f)) (fvalue f) (pHeaders st)) true (pReadCL st) (pCL st) lim)
+           else inr (PS (pPs st) (pSeen st) (pHeaders st) true (pReadCL st) (pCL st) lim)
+         else inr (PS (pPs st) (pSeen st) (hadd (canon (fname f)) (fvalue f) (pHeaders st)) true (pReadCL st) (pCL st) lim)
        end.
 
 (** The loop: [tailerr] = decodeFn() fails with a non-EOF error after the listed fields. *)
@@ -215,7 +235,7 @@ Fixpoint plogged (isReq : bool) (st : pst) (fs : list field) : Z :=
               end
   end.
 
-(** strconv.ParseUint(s, 10, 63) for non-empty s: decimal digits only, value <= 2^63-1. *)
+(** strconv.ParseUint(s, 10, 63): non-empty, decimal digits only, value <= 2^63-1. *)
 Fixpoint digits_val (acc : Z) (s : bytes) : option Z :=
   match s with
   | [] => Some acc
@@ -235,7 +255,7 @@ Record hdr := H {
 }.
 
 Definition pfinish (st : pst) : err + hdr :=
-  if is_empty (pCL st) then inr (H (pPs st) (-1) (pHeaders st))
+  if negb (pReadCL st) then inr (H (pPs st) (-1) (pHeaders st))
   else match parse_uint63 (pCL st) with
        | None => inl (EMalformed CLInvalid)
        | Some cl => inr (H (pPs st) cl (hset k_content_length (pCL st) (pHeaders st)))
